@@ -71,7 +71,7 @@ class MerkleNode(dict, metaclass=abc.ABCMeta):
 
     def invalidate_hash(self):
         """Invalidate the cached hash of the current node."""
-        if not self.__hash:
+        if self.__hash is None:
             return
 
         self.__hash = None
@@ -86,7 +86,7 @@ class MerkleNode(dict, metaclass=abc.ABCMeta):
           force (bool): invalidate the cache and force the computation for
             this node and all children.
         """
-        if self.__hash and not force:
+        if self.__hash is not None and not force:
             return self.__hash
 
         if force:
